@@ -770,6 +770,8 @@ def run_phi(ctx, n):
         a, fa = gen_terms.gen_expr(rng, c, rng.choice([0, 1, 2]), kind, ext=True)
         f = rng.choice(PHI)
         form = rng.choice(["root", "reduce", "binary"])
+        if f in ("log", "sqrt", "log1p"):
+            a = ("unary", "abs", a)      # keep the argument inside the function's domain
         if in_open_region(ctx, a):
             continue
         try:
@@ -1271,7 +1273,7 @@ def correspond(ctx):
         "Every case is decided on its whole input space against Lean `denote`; peval (the NT model) is echoed against "
         "denote; completeness is gated on the core fragment. Non-trivial = >= 3 constructors and a Tensor result with "
         ">= 1 input or event dim; distinct by full content.")
-    n_rand, n_ext, n_lazy = (3000, 3000, 600) if quick else (30000, 30000, 6000)
+    n_rand, n_ext, n_lazy = (2400, 2400, 500) if quick else (30000, 30000, 6000)
     run_cases(ctx, stream_random(ctx, n_rand))
     run_cases(ctx, stream_ext(ctx, n_ext))
     lazy_cases = stream_lazy(ctx, n_lazy)
